@@ -58,6 +58,10 @@ WITNESS_TESTS = {
     "append_to": "core/src/socket/dealer_socket.rs", "test_filter": "verif_sndtimeo_deadline_witness",
     "what": "in-crate: queue at the high-water mark, SNDTIMEO 300 ms, the queue-activity notifier fired every 100 ms: the waiting send answers timeout after about 300 ms, not never",
   },
+  "c02_inproc_reader_too_many_frames": {
+    "file": "witness/c02_inproc_reader_too_many_frames.rs", "props": ["C02", "C07"], "pairs_fn": ["inproc_reader_body"],
+    "what": "PUSH sends 300 MORE frames frame by frame over inproc to a PULL: no panic inside rzmq (panic hook), the connection is closed like over tcp",
+  },
   "c13_wait_for_connection_lost_wakeup": {
     "file": "witness/c13_wait_for_connection_lost_wakeup.rs", "props": ["C13"], "pairs_fn": ["LoadBalancer::wait_for_connection"],
     "append_to": "core/src/socket/patterns/load_balancer.rs", "test_filter": "verif_lost_wakeup_witness",
@@ -115,7 +119,7 @@ PROPS = {
 }
 
 PROPS["C01"] = {
-  "units": ["egress", "enc", "framer", "batch", "hsout", "drivers", "dealerq", "dealerproc"],
+  "units": ["egress", "enc", "framer", "batch", "hsout", "drivers", "dealerq", "dealerproc", "inprocrd"],
   "kani_quick": [], "kani_thorough": [],
   "claim": "Session-local byte-stream conservation, proved unbounded on the verbatim functions: EgressBuffer (push appends at the tail, advance(n) drops exactly n bytes from the front for every n and every chunking, "
            "push_priority inserts only after the partially written head chunk, counters follow the view) and the batch encoders (frame_contiguous / frame_vectored / NullFramer wrappers emit exactly enc_batches of the frames in batch order: "
@@ -158,7 +162,7 @@ ENGINE_TRUSTED = COMMON_TRUSTED + [
 ]
 
 PROPS["C02"] = {
-  "units": ["framebatch", "engine", "anon", "dealersend", "flags", "reqrep", "routerfrag"],
+  "units": ["framebatch", "engine", "anon", "dealersend", "flags", "reqrep", "routerfrag", "inprocrd"],
   "kani_quick": [], "kani_thorough": [],
   "claim": "Receiver side, proved unbounded on the verbatim code: ZmtpEngine::process_data delivers only complete messages (MORE on all but the last frame), and delivered frames + the message in progress equal, in order, "
            "the data frames the framer returned (nothing dropped, duplicated, reordered or merged across calls); a message of more than 255 frames closes the connection with PeerError instead of panicking and nothing truncated is delivered. "
@@ -170,9 +174,11 @@ PROPS["C02"] = {
            "Sender-side MORE normalisation (unit flags; the iter_mut().enumerate() loops desugared by R9e): PUSH / PUB send_multipart, DEALER prepare_full_multipart_send_sequence (manual and automatic framing) and the REP reply assembly put on the wire "
            "exactly the application's frames in order, payload untouched, MORE on all but the last; Socket::send_multipart refuses more than 255 frames with an error; DEALER / REP admission checks guarantee the capacity preconditions of the delimiter / envelope; "
            "ROUTER prepends exactly one identity frame to a received message and refuses (ProtocolViolation) a message that leaves no room for it; "
-           "the detach of a pipe resets ROUTER's frame-by-frame send in progress only if that send is addressed to the detached connection (unit routerfrag).",
+           "the detach of a pipe resets ROUTER's frame-by-frame send in progress only if that send is addressed to the detached connection (unit routerfrag). "
+           "inproc (unit inprocrd, the body of the direct-inproc reader task as a region, three nested loops): frames forwarded ++ frames waiting ++ accumulator == frames taken off the channel at every point, however the frames of a message are spread "
+           "over wake-ups of the task; only batches ending in a frame without MORE are forwarded; the reassembly never overruns the 255-frame capacity (a longer message closes the connection).",
   "level_note": "Unit anon uses the sequential lock model for the frame cache (one task receives at a time) and an abstract ReadyPipeQueue (its pop order is a ghost sequence; cancel safety of pop() assumed); queued batches are assumed to be whole messages "
-                "(proved for tcp/ipc by the engine contract, assumed for inproc). DEALER/ROUTER frame_recv_buffer, ROUTER's frame-by-frame send state (current_send_target) and its send-side strategies, and socket-level interleaving with other peers are not covered. "
+                "(proved for tcp/ipc by the engine contract and for inproc by unit inprocrd). DEALER/ROUTER frame_recv_buffer, ROUTER's frame-by-frame send state (current_send_target) and its send-side strategies, and socket-level interleaving with other peers are not covered. "
                 "FrameBatch::from(Vec) / with_capacity beyond 255 panic by design of the public API: derived preconditions, see DESIGN.md findings.",
   "technique": "contract-based deductive verification (Verus; engine invariant + ghost read log of the abstract framer; data-structure view for FrameBatch)",
   "trusted_base": ENGINE_TRUSTED + ["prelude/vecu8.rs: assumed contract of xs_foundation VecU8 (panic conditions as preconditions)"],
@@ -206,10 +212,12 @@ PROPS["C06"] = {
   "assumptions": ["the attacker does not know the credentials/keys (cryptography outside contracts)"],
 }
 PROPS["C07"] = {
-  "units": ["dec", "framer", "engine", "framebatch", "command"],
+  "units": ["dec", "framer", "engine", "framebatch", "command", "inprocrd"],
   "kani_quick": [], "kani_thorough": ["vk_peek_frame_len"],
   "claim": "Per-function totality, proved for ALL inputs: the four ZMTP decoders never overflow/index out of bounds, reject a frame of limit+1 bytes and accept one of exactly the limit (Err iff oversize), and return None without consuming or growing anything for an incomplete frame; "
-           "every Verus-generated safety obligation (arithmetic, indices, slices, callee preconditions = documented panic conditions of bytes/VecU8) of the engine handlers is discharged, every decode error becomes PeerError + phase Closed, a closed engine stays closed.",
+           "every Verus-generated safety obligation (arithmetic, indices, slices, callee preconditions = documented panic conditions of bytes/VecU8) of the engine handlers is discharged, every decode error becomes PeerError + phase Closed, a closed engine stays closed; "
+           "the engine's handshake framer and its data-phase framer both carry the configured MAXMSGSIZE (ZmtpEngine::new and derive_pending_framer under contract, ghost max_size() in the engine invariant: a ZMTP/2.0 peer is read by the handshake framer for the whole connection); "
+           "the inproc reader task refuses a message of more than 255 frames instead of panicking (unit inprocrd).",
   "level_note": "Not covered: handshake timeout pacing, connection-slot release, 'socket and other connections keep working' (actor/system level), CURVE/Noise metadata parsers, io_uring backend. The READY metadata parser (ZmtpReady::parse_properties) and ZmtpCommand::parse are proved total for every byte sequence in unit command.",
   "technique": "contract-based deductive verification (Verus on extracted real functions); Kani complete harness for the header path as cross-check",
   "trusted_base": ENGINE_TRUSTED,
